@@ -346,6 +346,7 @@ def one_config(job):
         prev_term, prev_lens = None, []
         toggles = sorted(int(x) for x in rng.integers(2, 40, size=cfg.get('toggles', 0)))
         toggled = False
+        dirty = False
         max_b = cfg.get('max_boundaries', 3000)
         while not done and k < 3000:
             if k >= max_b:
@@ -355,9 +356,19 @@ def one_config(job):
                 break
             ex0, nb0 = bool(s.explored), len(s.bounds)
             stride = 1 if rng.random() < 0.8 else int(rng.integers(1, 3 * cfg['n_batch']))
+            by_time = rng.random() < 0.06 and k >= 1 and not dirty      # (not before the first file exists, nor while a toggle awaits its batch)
+            nl_before = int(s.n_like)
+            #  a slice cut by the time limit instead of the budget (wherever it falls)
             with np.errstate(all='ignore'):
-                done = s.run(n_like_max=s.n_like + stride, **run_args(cfg))
+                if by_time:
+                    stride = 0
+                    done = s.run(timeout=float(rng.choice([0.0, 0.02, 0.1])), **run_args(cfg))
+                    out['timeout_slices'] = out.get('timeout_slices', 0) + 1
+                else:
+                    done = s.run(n_like_max=s.n_like + stride, **run_args(cfg))
             k += 1
+            if int(s.n_like) != nl_before:
+                dirty = False
             phase = 'first' if k == 1 else ('after-bound' if len(s.bounds) != nb0 else ('end-exploration' if s.explored and not ex0 else ('sampling' if s.explored else 'exploration')))
             out['phases'][phase] = out['phases'].get(phase, 0) + 1
             out['boundaries'] += 1
@@ -413,6 +424,7 @@ def one_config(job):
                 # C12/C05 interplay: a toggle is persisted by the next batch
                 toggles.pop(0)
                 s.discard_exploration = not s._discard_exploration
+                dirty = True
                 toggled = bool(toggles)
             if out['fails'] and len(out['fails']) > 3:
                 break
@@ -562,7 +574,7 @@ def main(run: Run, audit):
     run.cov.update(evaluations=sum(o['boundaries'] for o in outs) + n_cont, distinct_nontrivial=sum(o['compared'] for o in outs),
                    rule='every batch boundary of every configured run: fresh Sampler(resume=True) from a copy of the file, canonical deep comparison with the live object (exhaustive per run); '
                         'true continuations to the end from boundaries of every phase (quick) or all boundaries (thorough); the stepping run uses mixed run(n_like_max) strides',
-                   exhaustive=True, configurations=len(cfgs), boundaries=sum(o['boundaries'] for o in outs), boundary_phases=phases, continuations=n_cont, full_write_comparisons=sum(o.get('full_write_compared', 0) for o in outs), sampler_codec_model_checks=n_codec, control_layer_events=ctl_events, control_layer_resumes=ctl_resumes,
+                   exhaustive=True, configurations=len(cfgs), boundaries=sum(o['boundaries'] for o in outs), boundary_phases=phases, continuations=n_cont, full_write_comparisons=sum(o.get('full_write_compared', 0) for o in outs), sampler_codec_model_checks=n_codec, timeout_slices=sum(o.get('timeout_slices', 0) for o in outs), control_layer_events=ctl_events, control_layer_resumes=ctl_resumes,
                    direct_predicate_failures=len(fails),
                    samples=[dict(config={k: v for k, v in outs[0]['cfg'].items() if k != 'neural_network_kwargs'}, reference=outs[0].get('ref'), boundaries=outs[0]['boundaries'])])
     if fails:
